@@ -123,17 +123,17 @@ type Endpoint struct {
 	writesCalled int
 	readsParked  int
 
-	flow       *Flow
-	sackSeqs   []uint32 // sequence numbers of probes the SACK target has received, in order
-	localPort  uint16   // source port of the first TCP/UDP probe (kernel-chosen)
+	flow      *Flow
+	sackSeqs  []uint32 // sequence numbers of probes the SACK target has received, in order
+	localPort uint16   // source port of the first TCP/UDP probe (kernel-chosen)
 	// PortNotReserved: at the first probe another socket could bind the run's local port
 	PortNotReserved bool
-	localProto uint8
-	lastRecvd  uint32
-	tsTick     uint32 // free-running mode: how far the target's timestamp clock has advanced
-	Conn       *acceptedConn
-	lis        *lisState
-	w          *World
+	localProto      uint8
+	lastRecvd       uint32
+	tsTick          uint32 // free-running mode: how far the target's timestamp clock has advanced
+	Conn            *acceptedConn
+	lis             *lisState
+	w               *World
 }
 
 type simSource struct {
